@@ -177,6 +177,31 @@ def _param_always_dataset(P, fi, pname, depth=0):
     return True
 
 
+def _own_axes_copied(ctx, fi):
+    """Every store to X._axes made by fi has the shape `X = copy.copy(Y); X._axes = copy.deepcopy(X.axes)`: a private shallow copy gets a deep copy of its own axes -
+    the same names and sizes as before (detaching an array from axis objects it shares, before they are replaced one by one through the checked Axes.__setitem__)."""
+    from ..rules import run
+    from .. import terms as T
+    try:
+        ev = run(ctx, fi, mode='join')
+    except AnalysisError:
+        return False
+    n = 0
+    for p in ev.paths:
+        for e in p.events:
+            if e.kind == 'store_attr' and e.b == '_axes' and e.frame == fi.qualname:
+                x, v = e.a, e.c
+                shallow = x[0] == 'call' and T.dotted(x[1]) == 'copy.copy' and len(x[2]) == 1
+                if not shallow:
+                    return False
+                src = x[2][0]
+                deep = v[0] == 'call' and T.dotted(v[1]) == 'copy.deepcopy' and len(v[2]) == 1 and v[2][0] in (('attr', x, 'axes'), ('attr', x, '_axes'), ('attr', src, 'axes'), ('attr', src, '_axes'))
+                if not deep:
+                    return False
+                n += 1
+    return n > 0
+
+
 def _widening_only(ctx, fi):
     """Every store to X._values made by fi assigns _maybe_cast_type(X._values, ...) / _maybe_cast_type(X.values, ...): the array is re-typed, its shape
     (which is what the axes are checked against) stays what it was."""
@@ -215,6 +240,10 @@ def rule_who_may_write(ctx):
                     if key not in seen:
                         seen.add(key)
                         ctx.holds('R2', 'store %s.%s: %s' % (fi.qualname.replace('dimarray.', ''), node.attr, ALLOWED_STORES[key]))
+                elif node.attr == '_axes' and _own_axes_copied(ctx, fi):
+                    if key not in seen:
+                        seen.add(key)
+                        ctx.holds('R2', 'store %s._axes: a deep copy of the same object\'s own axes on a private shallow copy (same sizes)' % fi.qualname.replace('dimarray.', ''))
                 elif node.attr == '_values' and _widening_only(ctx, fi):
                     if key not in seen:
                         seen.add(key)
